@@ -380,6 +380,8 @@ type Opts struct {
 	// FailAfter: the connection accepts that many Write calls after Serve started and refuses
 	// every later one with ErrWriteFault; -1 = never fails
 	FailAfter int
+	// FailOnce: only that one Write call is refused, later ones are accepted again
+	FailOnce bool
 }
 
 // Enc renders the options for the replay lines ("-" = defaults).
@@ -390,6 +392,9 @@ func (o Opts) Enc() string {
 	}
 	if o.FailAfter >= 0 {
 		f = append(f, fmt.Sprintf("failafter=%d", o.FailAfter))
+	}
+	if o.FailOnce {
+		f = append(f, "failonce")
 	}
 	return common.Join(f, ",")
 }
@@ -410,6 +415,8 @@ func DecOpts(s string) Opts {
 					o.NewAddr = j
 				}
 			}
+		case p[0] == "failonce":
+			o.FailOnce = true
 		case p[0] == "failafter" && len(p) == 2:
 			fmt.Sscanf(p[1], "%d", &o.FailAfter)
 		}
@@ -422,6 +429,7 @@ type faultWriter struct {
 	w     io.Writer
 	mu    sync.Mutex
 	armed bool
+	once  bool
 	left  int
 }
 
@@ -429,10 +437,13 @@ func (f *faultWriter) Write(p []byte) (int, error) {
 	f.mu.Lock()
 	defer f.mu.Unlock()
 	if f.armed {
-		if f.left <= 0 {
+		if f.left == 0 || (f.left < 0 && !f.once) {
+			f.left = -1
 			return 0, ErrWriteFault
 		}
-		f.left--
+		if f.left > 0 {
+			f.left--
+		}
 	}
 	return f.w.Write(p)
 }
@@ -445,7 +456,7 @@ func ServeOpt(opt Opts, ns string, local, remote jid.JID, body []byte, progs []P
 	if ns == NSServer {
 		state |= xmpp.S2S
 	}
-	fw := &faultWriter{w: out, left: opt.FailAfter}
+	fw := &faultWriter{w: out, left: opt.FailAfter, once: opt.FailOnce}
 	s, err := xmpp.NewSession(context.Background(), remote, local, rwPair{in, fw}, state, headerNegotiatorOpt(ns, opt))
 	if err != nil {
 		res.Err = fmt.Errorf("verif: session setup: %w", err)
